@@ -17,7 +17,9 @@ V10, V11, V12, V13, V14, V20 = (1, 0), (1, 1), (1, 2), (1, 3), (1, 4), (2, 0)
 SUPPORTED = [V10, V11, V12, V13, V14, V20]
 # versions the server must refuse: an older/odd minor of a known major, minors between and after
 # the known ones, an unknown major, the two extremes of the integer pair
-UNSUPPORTED = [(0, 9), (1, 5), (1, 9), (2, 1), (3, 0), (0, 0), (255, 255)]
+UNSUPPORTED = [(0, 9), (1, 5), (1, 9), (2, 1), (3, 0), (0, 0), (255, 255),
+               # numerals that read like a supported version as a decimal fraction / a string
+               (1, 10), (1, 20), (1, 40), (1, 100), (2, 10), (10, 0), (1, 11)]
 
 
 def vs(v):
